@@ -4,7 +4,7 @@ spec fn evp_md5(pw: Seq<u8>) -> Seq<u8> { md5(pw) + md5(md5(pw) + pw) }
 
 //@@ octo-squirrel/src/protocol/shadowsocks.rs:27-47  mod aead / fn openssl_bytes_to_key  sha=7641dae4dfdc4611
 fn ssaeadk__openssl_bytes_to_key<const N: usize>(password: &[u8]) -> (r: [u8; N])
-    requires 16 <= N <= 32, password@.len() <= 0x7fff_ffff,
+    requires 16 <= N <= 32, password@.len() <= 0x7fff_ffff_ffff_ffff,
     ensures
         //#C03 C16
         // the key of a legacy cipher is EVP_BytesToKey(MD5) of the password bytes
@@ -23,7 +23,7 @@ fn ssaeadk__openssl_bytes_to_key<const N: usize>(password: &[u8]) -> (r: [u8; N]
         proof { assert(encoded@.take(16) =~= d1.take(16)); assert(d1.take(16) =~= d1); }
         let mut index = password_digest.len();
         while index < size
-            invariant size == N, 16 <= N <= 32, index == 16 || index == 32, container@.len() == password@.len() + 16, hasher.acc() == Seq::<u8>::empty(),
+            invariant size == N, 16 <= N <= 32, index == 16 || index == 32, container@.len() == password@.len() + 16, password@.len() <= 0x7fff_ffff_ffff_ffff, hasher.acc() == Seq::<u8>::empty(),
                 d1 == md5(password@), d1.len() == 16, password_digest@.len() == 16,
                 index == 16 ==> password_digest@ == d1,
                 index == 16 ==> encoded@.take(16) == d1,
@@ -97,4 +97,172 @@ fn ss22k__password_to_keys<const N: usize>(password: &str) -> (r: Result<([u8; N
         let enc_key = identity_keys.remove(identity_keys.len() - 1);
         proof { assert(arrs(identity_keys@).len() + 1 == segs.len()); }
         Ok((enc_key, identity_keys))
+    }
+
+
+/// README: the 2022-blake3-* ciphers take base64 keys (identity keys and the encryption key separated by ':'),
+/// every other cipher takes an ordinary password that becomes the key through EVP_BytesToKey
+spec fn is_2022(kind: CipherKind) -> bool {
+    kind is Aead2022Blake3Aes128Gcm || kind is Aead2022Blake3Aes256Gcm || kind is Aead2022Blake3ChaCha8Poly1305 || kind is Aead2022Blake3ChaCha20Poly1305
+}
+spec fn cred_ok(kind: CipherKind, pw: Seq<u8>, n: int, key: Seq<u8>, iks: Seq<Seq<u8>>) -> bool {
+    if is_2022(kind) { keys_of(str_split(pw, 0x3a), key, iks) } else { key == evp_md5(pw).take(n) && iks.len() == 0 }
+}
+/// R28: a value moved to the heap for the rest of the process
+#[verifier::external_body]
+fn verif_leak<T>(v: T) -> (r: &'static T) ensures *r == v { unimplemented!() }
+
+//@@ octo-squirrel/src/protocol.rs:14-20  enum Protocol  sha=f4fd8332bf4085d1
+#[derive(Clone, Copy)]
+pub enum Protocol {
+    Shadowsocks,
+    VMess,
+    Trojan,
+}
+
+//@@ octo-squirrel/src/config.rs:18-30  enum Mode  sha=957f62c1c01193ba
+#[derive(Clone, Copy)]
+pub enum cfg__Mode {
+    Tcp,
+    Udp,
+    TcpAndUdp,
+    Quic,
+    TcpAndQuic,
+}
+
+//@@ octo-squirrel/src/config.rs:64-84  struct ServerConfig  sha=4a1981ff06f0d60b
+pub struct ServerConfig<S: Clone + Default> {
+    pub host: String,
+    pub port: u16,
+    pub mode: cfg__Mode,
+    pub password: String,
+    pub protocol: Protocol,
+    pub cipher: CipherKind,
+    pub ssl: Option<S>,
+    pub ws: Option<WebSocketConfig>,
+    pub quic: Option<S>,
+    pub user: Vec<User>,
+    marker: PhantomData<S>,
+}
+
+//@@ octo-squirrel/src/config.rs:92-98  struct WebSocketConfig  sha=f6c7c5e2c14b9f62
+pub struct WebSocketConfig {
+    pub header: HashMap<String, String>,
+    pub path: String,
+}
+
+//@@ octo-squirrel/src/config.rs:100-104  struct User  sha=bb2d5e07d1c8ea18
+pub struct User {
+    pub name: String,
+    pub password: String,
+}
+
+//@@ octo-squirrel/src/manager/shadowsocks.rs:70-81  impl TryFrom for ServerUser  sha=147844897c3f48a7
+impl<const N: usize> ServerUser<N> {
+
+    fn try_from(value: &User) -> (r: Result<Self, base64ct::Error>)
+        ensures
+            //#C16 C06 C03
+            // a registered user is keyed by its base64 uPSK and named on the wire by the first 16 bytes of BLAKE3(uPSK) (SIP023)
+            r matches Ok(u) ==> (b64dec(sbytes(value.password)) matches Some(d) && key_holds(u.key@, d)) && u.identity_hash@ == blake3_hash(u.key@).take(16),
+    {
+        let mut key = [0; N];
+        let mut identity_hash = [0; 16];
+        Base64::decode(&value.password, &mut key)?;
+        proof {
+            let d = b64dec(sbytes(value.password)).unwrap();
+            assert(key@ =~= d + Seq::new((N - d.len()) as nat, |i: int| 0u8));
+        }
+        let hash = blake3::hash(&key);
+        identity_hash.copy_from_slice(&hash.as_bytes()[..16]);
+        proof { assert(identity_hash@ =~= blake3_hash(key@).take(16)); }
+        Ok(Self { name: value.name.clone(), key, identity_hash })
+    }
+}
+
+//@@ octo-squirrel-client/src/client/config.rs:30-38  struct SslConfig  sha=335b473079324dbf
+#[derive(Default, Clone)]
+pub struct SslConfig {
+    pub certificate_file: Option<String>,
+    pub key_file: Option<String>,
+    pub server_name: Option<String>,
+}
+
+//@@ octo-squirrel-client/src/client/shadowsocks.rs:21-22  mod tcp / struct ClientContext  sha=2382d56aa048fd90
+#[derive(Clone)]
+    pub struct ClientContext<const N: usize>(Arc<Context<N>>);
+
+//@@ octo-squirrel-client/src/client/shadowsocks.rs:24-38  mod tcp / impl TryFrom for ClientContext  sha=39de7352398736c5
+impl<const N: usize> ClientContext<N> {
+
+        fn try_from(value: &ServerConfig<SslConfig>) -> (r: Result<Self, anyhow::Error>)
+            requires 16 <= N <= 32,
+            ensures
+                //#C16 C03
+                // the cipher name selects the credential format: base64 key list for 2022-blake3-*, EVP_BytesToKey of the password otherwise
+                r matches Ok(c) ==> c.0.kind == value.cipher && cred_ok(value.cipher, sbytes(value.password), N as int, c.0.key@, arrs(c.0.identity_keys@)),
+        {
+            let kind = value.cipher;
+            let (key, identity_keys) = if kind.is_aead_2022() {
+                ss22k__password_to_keys(&value.password).map_err(|e| verif_err())?
+            } else {
+                let key = ssaeadk__openssl_bytes_to_key(value.password.as_bytes());
+                (key, Vec::with_capacity(0))
+            };
+            let context = Arc::new(Context::new(key, identity_keys, value.cipher, None));
+            Ok(Self(context))
+        }
+    }
+
+//@@ octo-squirrel-client/src/client/shadowsocks.rs:103-108  mod udp / struct Client  sha=d93cebf4aeaa000b
+#[derive(Clone, Copy)]
+    pub struct Client<'a, const N: usize> {
+        kind: CipherKind,
+        key: &'a [u8],
+        identity_keys: &'a [[u8; N]],
+    }
+
+//@@ octo-squirrel-client/src/client/shadowsocks.rs:110-121  mod udp / impl Client  sha=8c422fdb4dd96303
+impl<const N: usize> Client<'_, N> {
+        fn new_static(config: ServerConfig<SslConfig>) -> (r: anyhow::Result<Client<'static, N>>)
+            requires 16 <= N <= 32,
+            ensures
+                //#C16 C03
+                // on UDP exactly as on TCP
+                r matches Ok(c) ==> c.kind == config.cipher && cred_ok(config.cipher, sbytes(config.password), N as int, c.key@, arrs(c.identity_keys@)),
+        {
+            let (key, identity_keys) = if config.cipher.is_aead_2022() {
+                ss22k__password_to_keys(&config.password).map_err(|e| verif_err())?
+            } else {
+                (ssaeadk__openssl_bytes_to_key(config.password.as_bytes()), Vec::with_capacity(0))
+            };
+            let key: &'static [u8; N] = verif_leak(key);
+            let identity_keys: &'static Vec<[u8; N]> = verif_leak(identity_keys);
+            Ok(Client::<'static> { kind: config.cipher, key, identity_keys })
+        }
+    }
+
+//@@ octo-squirrel-server/src/server/shadowsocks.rs:300-301  mod tcp / struct ServerContext  sha=e2f8b9f4fe8a2fbd
+#[derive(Clone)]
+    pub struct ServerContext<const N: usize>(Arc<Context<N>>);
+
+//@@ octo-squirrel-server/src/server/shadowsocks.rs:303-315  mod tcp / impl ServerContext  sha=8a129de5264a3aff
+impl<const N: usize> ServerContext<N> {
+        fn init(config: &ServerConfig<SslConfig>, user_manager: Arc<ServerUserManager<N>>) -> (r: Result<Self>)
+            requires 16 <= N <= 32,
+            ensures
+                //#C16 C03
+                r matches Ok(c) ==> c.0.kind == config.cipher && cred_ok(config.cipher, sbytes(config.password), N as int, c.0.key@, arrs(c.0.identity_keys@))
+                    && c.0.user_manager == Some(user_manager),
+        {
+            let kind = config.cipher;
+            let (key, identity_keys) = if kind.is_aead_2022() {
+                ss22k__password_to_keys(&config.password).map_err(|e| verif_err())?
+            } else {
+                let key = ssaeadk__openssl_bytes_to_key(config.password.as_bytes());
+                (key, Vec::with_capacity(0))
+            };
+            let context = Arc::new(Context::new(key, identity_keys, config.cipher, Some(user_manager)));
+            Ok(Self(context))
+        }
     }
